@@ -328,7 +328,11 @@ func (c *zzC06Cast) restsBystander(nd *zzC06Node) {
 // decision the code takes on ids is a comparison, so each of the n rotations of the order is represented with all
 // its 2^40 values per member; comparisons between members fold on the known high bits without a solver call.
 func zzC06IDs(n int) []uint64 {
-	rot := rt.Choose("rotation", n)
+	k := rt.Bound("rot") // number of rotations explored (0, 1, ... in this order)
+	if k > n {
+		k = n
+	}
+	rot := rt.Choose("rotation", k)
 	rt.TagInt("rotation", rot)
 	ids := make([]uint64, n)
 	for i := range ids {
